@@ -7,4 +7,5 @@ CONSTANTS
 SPECIFICATION Spec
 INVARIANTS FinalOK NoneLeft AtMostOnce DepsFinished NothingRunsAtReturn QuiescentIsClosure
 
+PROPERTY FlatRefinement
 CHECK_DEADLOCK FALSE
